@@ -61,6 +61,10 @@ class Gen:
         self.clearable = [n for n in self.dirs if n not in NO_CLEAR and not is_hooked(n)
                           and not n.startswith("linux.vmcoreinfo.lines")] + self.settable
         self.ax = [n for n in self.settable if n.startswith("addrxlat.")]
+        self.kids = {}
+        for n in self.by_name:
+            if "." in n:
+                self.kids.setdefault(n.rsplit(".", 1)[0], []).append(n)
         self.nfiles = nfiles
         self.hangs = 0
 
@@ -78,6 +82,50 @@ class Gen:
         r = self.rng
         return r.choice(["nosuch", "arch.nosuch", "arch.byte_order.x", "", "arch..byte_order", "arch.", ".",
                          "cpu.0", "file.set.2.fd", "linux.vmcoreinfo.lines.NOPE", r.choice(self.leaves) + "x"])
+
+    def iter_mutate(self, ops, c, slots, was_set):
+        """Walk a directory and set / clear children while walking: the current position (through
+        it.pos, by path, through a sub-key of a directory reference), earlier and later siblings."""
+        r = self.rng
+        def can_clear(k):
+            # no clear hook, nothing freed: settable leaves, clearable directories, VMCOREINFO line leaves
+            return k in self.clearable or (k.startswith("linux.vmcoreinfo.lines.") and self.by_name[k][0] != "d")
+        cands = [d for d in self.dirs if len(self.kids.get(d, [])) >= 2 and all(can_clear(k) for k in self.kids[d])]
+        if not cands:
+            return
+        d = r.choice(cands)
+        kids = self.kids[d]
+        # values are only written where every child is free of set hooks
+        leaf = [k for k in kids if k in self.settable] if all(k in self.settable or k in self.clearable for k in kids) else []
+        for k in r.sample(leaf, min(len(leaf), r.randint(0, 5))):
+            ty = self.by_name[k][0]
+            ops.append("S:%d:%s:%s:%s" % (c, hx(k), ty, self.value(ty)))
+            was_set.append(k)
+        sl, isl = r.randrange(6), r.randrange(3)
+        ops.append("R:%d:%d:%s" % (c, sl, hx(d)))
+        slots[sl] = (c, d)
+        ops.append("I:%d:%d:%s" % (c, isl, hx(d)))
+        for _ in range(len(kids) + 1):
+            y = r.random()
+            if y < 0.22:
+                ops.append("IS:%d:%d:N:-" % (c, isl))                    # clear the current one through it.pos
+            elif y < 0.40:
+                ops.append("IK:%d:%d:N:-" % (c, isl))                    # ... by its path
+            elif y < 0.50 and leaf:
+                ty = self.by_name[r.choice(leaf)][0]
+                ops.append("IS:%d:%d:%s:%s" % (c, isl, ty, self.value(ty)))  # set the current one (maybe mismatching)
+            elif y < 0.70:
+                k = r.choice(kids)                                       # any sibling: earlier, current or later
+                clearable = can_clear(k)
+                if k in leaf and r.random() < 0.5:
+                    ty = self.by_name[k][0]
+                    ops.append("S:%d:%s:%s:%s" % (c, hx(k), ty, self.value(ty)))
+                elif clearable:
+                    if r.random() < 0.5:
+                        ops.append("S:%d:%s:N:-" % (c, hx(k)))
+                    else:
+                        ops.append("SS:%d:%d:%s:N:-" % (c, sl, hx(k[len(d) + 1:])))
+            ops.append("IN:%d:%d" % (c, isl))
 
     def history(self, maxops):
         r = self.rng
@@ -157,6 +205,9 @@ class Gen:
                     ops += ["IN:%d:%d" % (c, isl)] * (self.by_name[par][1] + 1 if par in self.by_name else 1)
                     slots[sl] = (c, k)
                     continue
+            if not opened and r.random() < 0.07:
+                self.iter_mutate(ops, c, slots, was_set)
+                continue
             if x < 0.28:
                 k = key()
                 nm = k[1:] if k.startswith(".") and len(k) > 1 else k
@@ -246,7 +297,8 @@ class Gen:
             else:
                 ops.append("G:%d:%s" % (c, hx(r.choice(focus))))
         if self.nfiles and not opened and r.random() < 0.08:
-            ops.append("O:%d" % r.randrange(self.nfiles))
+            via = r.choice(live)
+            ops.append("O:%d" % r.randrange(self.nfiles) + (":%d" % via if via else ""))
             if r.random() < 0.6:
                 ops.append("O:%d" % r.randrange(self.nfiles))       # a real re-open
                 if self.hangs < 2:
@@ -255,7 +307,7 @@ class Gen:
         return ([self.variant] if self.variant != "P" else []) + ops
 
 
-def big_history(rng, n):
+def big_history(rng, n, variant="B"):
     """B<n>: n sibling attributes K0..K<n-1> below linux.vmcoreinfo.lines (many keys are proper
     prefixes of later ones and share the 1024 hash buckets).  Every key is read by path, by
     sub-reference and through the iterator, set to a new value by alternating entry points, and
@@ -291,14 +343,23 @@ def big_history(rng, n):
             ops.append("SS:0:0:%s:N:-" % hx("K%d" % i))
     for i in rng.sample(keys, min(n, 800)):
         ops.append("G:0:%s" % hx("%s.K%d" % (lines, i)))
+    # walk the directory and clear entries while walking: the current one (through it.pos or by
+    # path) before most steps; everything that still has a value must be yielded
     ops.append("I:0:2:%s" % hx(lines))
-    ops += ["IN:0:2"] * (n + 1)
-    return ["B%d" % n] + ops
+    for j in range(n + 1):
+        if j % 3 == 0:
+            ops.append("IS:0:2:N:-")
+        elif j % 3 == 1:
+            ops.append("IK:0:2:N:-")
+        ops.append("IN:0:2")
+    ops.append("I:0:2:%s" % hx(lines))
+    ops += ["IN:0:2"] * 3
+    return ["%s%d" % (variant, n)] + ops
 
 
 def split_case(case):
     """(variant prefix as a list, operations)"""
-    if case and (case[0] in ("P", "F") or (case[0][:1] == "B" and case[0][1:].isdigit())):
+    if case and (case[0] in ("P", "F") or (case[0][:1] in ("B", "X") and case[0][1:].isdigit())):
         return case[:1], case[1:]
     return [], case
 
@@ -393,7 +454,8 @@ def check(run):
     ncases = 2500 if quick else 60000
     maxops = 30 if quick else 45
     nbig = 1200 if quick else 3000
-    variants = ["P", "F", "B%d" % nbig]
+    nx = 300
+    variants = ["P", "F", "B%d" % nbig, "X%d" % nx]
     tree_lines, trees = [], {}
     for v in variants:
         rc, out, err = core.run_impl(exe, ["--tree", v], timeout=60)
@@ -447,6 +509,8 @@ def check(run):
     # thousands of prefix-related sibling keys first (one long history; three in the thorough tier)
     for _ in range(1 if quick else 3):
         cases.append(big_history(run.rng, nbig))
+    # the same on attributes that were created through a KDUMP_CLONE_XLAT clone which was freed first
+    cases.append(big_history(run.rng, nx, "X"))
     for _ in range(ncases):
         cases.append(gen.history(maxops))
     for _ in range(nfresh):
@@ -483,7 +547,7 @@ def same(ctx, ops, mline, iline):
         return False
     for op, a, b in zip(ops, mt, it):
         if op.startswith("O:"):
-            if not reopen_equal(a, b, ctx["fresh"].get(int(op[2:]), {})):
+            if not reopen_equal(a, b, ctx["fresh"].get(int(op.split(":")[1]), {})):
                 return False
         elif a != b:
             return False
@@ -552,9 +616,17 @@ def compare(run, ctx, cases):
             small = ops
             if j is not None:
                 refs = [o for o in body[:j] if o.startswith(("R:", "SR:"))][-2:]
-                for cand in ([body[j]], body[:1] + [body[j]], body[:1] + refs + [body[j]]):
-                    if fails_body(cand):
-                        small = pre + cand
+                # the iteration the operation belongs to, if any
+                seg = []
+                if body[j].startswith(("IN:", "IS:", "IK:")):
+                    isl = body[j].split(":")[2]
+                    k = max([x for x in range(j) if body[x].startswith(("I:", "IR:")) and body[x].split(":")[2] == isl],
+                            default=None)
+                    if k is not None:
+                        seg = body[k:j + 1]
+                for cand in ([body[j]], body[:1] + [body[j]], body[:1] + refs + [body[j]], body[:1] + seg):
+                    if cand and fails_body(cand):
+                        small = pre + (core.shrink_list(cand, fails_body, max_tests=40) if len(cand) > 6 else cand)
                         break
         elif not fails(ops):
             run.count("unreproducible-disagreement")
